@@ -270,6 +270,48 @@ pub fn generate_c02(tier: &str, seed: u64, out: &mut Out) {
             req_total(out, e, &t);
         }
     }
+    // (a2) realistic documents through the deb822-shaped entry points: seeded well-formed documents,
+    //      the same with ragged continuation indentation (deeper first, shallower later, tab after
+    //      spaces, whitespace-only first continuation line), and single-character mutations of them
+    //      (after seeded change C02-r7m1: an offset taken from one line and applied to another)
+    {
+        let mut docs: Vec<String> = vec![
+            "Package: hello\nDescription: example\n  $ hello --greeting\n prints a greeting\n".to_string(),
+            "Source: foo\nBuild-Depends:\n    debhelper-compat (= 13),\n  foo,\n bar\n".to_string(),
+            "Source: foo\nBuild-Depends:\n        a,\n\tb\n".to_string(),
+            "Field: x\n   \n y\n".to_string(),
+            "A: b\n\t\t c\n \td\n  e\n f".to_string(),
+        ];
+        let n = if thorough { 6000 } else { 600 };
+        for _ in 0..n {
+            let ls = crate::docspec::random_lines(&mut rng, false);
+            let t = crate::docspec::render(&ls, rng.chance(80));
+            if rng.chance(50) {
+                // ragged: every second indentation loses or gains a column
+                let mut out_t = String::new();
+                for (i, l) in t.split('\n').enumerate() {
+                    if i > 0 {
+                        out_t.push('\n');
+                    }
+                    if l.starts_with(' ') && i % 2 == 0 {
+                        out_t.push_str(&l[1..]);
+                    } else if l.starts_with(' ') {
+                        out_t.push_str("  ");
+                        out_t.push_str(l);
+                    } else {
+                        out_t.push_str(l);
+                    }
+                }
+                docs.push(out_t);
+            }
+            docs.push(t);
+        }
+        for t in &docs {
+            for e in &deb_like {
+                req_total(out, e, t);
+            }
+        }
+    }
     // (b) value-shaped entry points: all strings over the relation alphabet
     for (i, t) in strings_upto(&REL_ALPHABET, 3).iter().enumerate() {
         for e in &small {
